@@ -32,6 +32,10 @@ def module(init, mx, imported=False):
     return m.encode()
 
 
+class NotShared(Exception):
+    pass
+
+
 def build(init, mx, flavours, root=None, imported=False):
     """translate + compile the harness for one memory configuration; returns {flavour: exe}, gen dir"""
     d = os.path.join(root or scratch('c18'), 'mem_%d_%d%s' % (init, mx, '_imported' if imported else ''))
@@ -41,7 +45,7 @@ def build(init, mx, flavours, root=None, imported=False):
         raise mclib.MachineryError('w2c2 failed on the C18 module: ' + err)
     src = open(os.path.join(d, 'm.c')).read()
     if 'mNewChild' not in src or (not imported and 'i->m0 = parent->m0' not in src.replace('\n', ' ')):
-        raise mclib.MachineryError('generated code has no NewChild that shares the parent memory')
+        raise NotShared('the module declares (memory %d %d shared), but the generated NewChild does not hand the parent\'s memory to the child: every thread of the instance family would get a memory of its own' % (init, mx))
     defs = ['-DIMPORTED_MEM=1', '-DMEM_INIT=%d' % init, '-DMEM_MAX=%d' % mx] if imported else []
     exes = dict(pmap(lambda fl: (fl, mclib.build_harness(d, fl, [os.path.join(d, 'm.c'), os.path.join(mclib.MC, 'h_grow.c')], incs=[d, os.path.join(REPO, 'w2c2')], defs=defs)), flavours))
     return exes, d
@@ -243,8 +247,18 @@ def main(tier):
         mems = sorted(set(tuple(c['mem']) for c in cases))
         root = scratch('c18')
         built = {}
-        for mem, (exes, d) in zip(mems, pmap(lambda mm: build(mm[0], mm[1], FLAVOURS if mm[1] < 65536 else ('plain',), root, imported=len(mm) > 2), mems)):
-            built[mem] = (exes, d)
+        def build_or_report(mm):
+            try:
+                return build(mm[0], mm[1], FLAVOURS if mm[1] < 65536 else ('plain',), root, imported=len(mm) > 2)
+            except NotShared as e:
+                return e
+        for mem, res in zip(mems, pmap(build_or_report, mems)):
+            if isinstance(res, NotShared):
+                chk.violation('instantiate|child-does-not-share-the-memory|%s' % (mem,), {'kind': 'config', 'mem': list(mem), 'how_to_replay': 'python3 checks/c18.py quick'}, str(res))
+                cases = [c for c in cases if tuple(c['mem']) != mem]
+                continue
+            built[mem] = res
+        mems = [m_ for m_ in mems if m_ in built]
         jobs = []
         for c in cases:
             exes, d = built[tuple(c['mem'])]
